@@ -41,7 +41,8 @@ def run_query(vec, emb, eid):
                 tier = textgrid.PointTier("t", [(g(x["t"]), "".join(l)) for x, l in zip(vec["pre"]["ents"], labs)], g(vec["pre"]["lo"]), g(vec["pre"]["hi"]))
             ev["labs"] = labs
         else:
-            tier = T.mk_tier(vec["pre"], emb, pool)
+            # every third query is asked of a tier reached through a history (views read once, then an entry deleted in place)
+            tier = (T.mk_tier_primed if eid % 3 == 1 else T.mk_tier)(vec["pre"], emb, pool)
         ev["pre"] = pj.tier(tier) if op != "find" else vec["pre"]
     try:
         with contextlib.redirect_stdout(io.StringIO()):
